@@ -32,6 +32,7 @@ func checkC15(c *Ctx) {
 	nfun := lockBalance(c, isCondLockClass, "cond")
 	c.R.Floor("functions operating a cond lock", nfun, 6)
 	w, b, s := monitorRules(c, buf)
+	c.cachedCursorComparisons(buf)
 	c.R.Count("wait loops", w)
 	c.R.Count("broadcast sites", b)
 	c.R.Count("stores to foreign predicate state", s)
